@@ -4,9 +4,10 @@
     - [C09_dec_correct_partial]: the decision procedure [Ambig.find] that the check runs on
       Rust's minimised automaton is sound -- when it finds nothing, no state has two outgoing
       items that read a common word and differ in target ([Ambig.unambiguous]);
-      [C09_dec_witness]: a word it exhibits is genuinely read by both items.  (The converse of
-      the first -- [find] answers [None] on every unambiguous automaton -- is not proved: the
-      product search has a fuel bound and answers "not disjoint" when it runs out.)
+      [C09_dec_witness]: a word it exhibits is genuinely read by both items;
+      [C09_dec_complete]: on a transition table without duplicate keys, [find] answers [None] on
+      every unambiguous automaton unless a product search ran out of fuel ([gave_up]);
+      [C09_dec_correct]: hence [find c = None <-> unambiguous c] whenever no search gave up.
     - [C09_unambiguous]: outside the known mechanisms (= [Ambig.find] finds nothing) the
       automaton is unambiguous.
     - [C09_fallback_transparent_spec]: at the level of the specification [Spec.Meaning] and of the
@@ -28,14 +29,29 @@
     on every run by execution instead (lib/vf/checks/c09.py: Rust's automaton for the [||] grammar
     against the one for its [|] variant in real bash). *)
 From CG Require Import Base.Prelude Model.Ast Model.Check Model.Dfa Spec.Rx Spec.Meaning Spec.TokAut Spec.Ambig
-     Proofs.MeaningFacts Proofs.MeaningLevels Proofs.CheckBar Proofs.AmbigFacts.
+     Proofs.MeaningFacts Proofs.MeaningLevels Proofs.CheckBar Proofs.AmbigFacts Proofs.AmbigComplete.
 
 Definition known_C09 (c : cdfa) : bool :=
   match Ambig.find c with Some _ => true | None => false end.
 
-(** [Ambig.find d = None <-> unambiguous d]: the full statement (only "->" is proved). *)
+(** [Ambig.find d = None <-> unambiguous d] without side conditions: not provable as it stands
+    (the product search has a fuel bound); see [C09_dec_correct] for the conditional form. *)
 Definition C09_dec_correct_statement : Prop :=
   forall c, Ambig.find c = None <-> unambiguous c.
+
+Theorem C09_dec_complete :
+  forall c, wf_trans (c_main c) -> unambiguous c -> Ambig.find c = None \/ gave_up c.
+Proof. exact find_complete. Qed.
+Check C09_dec_complete :
+  forall c, wf_trans (c_main c) -> unambiguous c -> Ambig.find c = None \/ gave_up c.
+Print Assumptions C09_dec_complete.
+
+Theorem C09_dec_correct :
+  forall c, wf_trans (c_main c) -> ~ gave_up c -> (Ambig.find c = None <-> unambiguous c).
+Proof. exact find_correct. Qed.
+Check C09_dec_correct :
+  forall c, wf_trans (c_main c) -> ~ gave_up c -> (Ambig.find c = None <-> unambiguous c).
+Print Assumptions C09_dec_correct.
 
 Theorem C09_dec_correct_partial : forall c, Ambig.find c = None -> unambiguous c.
 Proof. exact find_none_unambiguous. Qed.
